@@ -134,7 +134,7 @@ def _proc_main(conn, slot):
 def run_jobs(pid, jobs, nproc):
     """Yield (status, result) per job from `nproc` worker processes.  Unlike multiprocessing.Pool this survives the death of a
     worker (CPython itself has been seen to crash with a general protection fault under engine B's tracing threads, about once
-    per hour of schedule exploration): the job is given to a fresh worker, twice at most, then reported as an internal error."""
+    per hour of schedule exploration): the job is given to a fresh worker, three times at most, then reported as an internal error."""
     from multiprocessing.connection import wait
     ctx = multiprocessing.get_context('fork')
     todo = [[pid, j, 0] for j in reversed(jobs)]
@@ -184,7 +184,7 @@ def run_jobs(pid, jobs, nproc):
                     except OSError:
                         pass
                     item[2] += 1
-                    if item[2] > 2:
+                    if item[2] > 3:
                         yield ('crash', 'job %r: the worker process died %d times (last exit code %r)' % (item[1], item[2], code))
                     else:
                         sys.stderr.write('[lv] worker died (exit code %r) while running a job of %s; the job is re-run in a fresh worker\n' % (code, pid))
